@@ -242,6 +242,9 @@ type Run struct {
 	Zone  string       `json:"zone"`
 	Err   string       `json:"err"`
 	Res   Res          `json:"res"`
+	// Steps: what the rt.merge / rt.merged hooks reported before each entity and after the last one:
+	// [skipped (0/1), #tripsById, #vehiclesByID, #vehiclesWithNoID, #tripIDToVehicleID, #alerts]
+	Steps abs.Seq[[]int] `json:"steps"`
 }
 
 type Record struct {
